@@ -625,7 +625,7 @@ class Ev:
 				private = attr.startswith('__') and not attr.endswith('__')
 				if private and self.fn.cname and self.fn.src is not None:
 					f = source.load(self.fn.src.file).funcs.get(f'{self.fn.cname}.{attr}')  # name-mangled: static class only
-				elif self.fn.dyn and self.fn.src is not None and self.fn.src.file == rec.source[0] and (rec.source[1] == self.fn.dyn or self.eng_is_ancestor(rec.source[0], rec.source[1], self.fn.dyn)):
+				elif self.fn.dyn and self.fn.src is not None and self.fn.src.file == rec.source[0] and (rec.source[1] == self.fn.dyn or self.eng_is_ancestor(rec.source[0], rec.source[1], self.fn.dyn) or self.eng_is_ancestor(rec.source[0], self.fn.dyn, rec.source[1])):
 					# virtual dispatch applies to objects of the current class family only
 					f = source.find_method(rec.source[0], self.fn.dyn, attr)
 				if f is None:
